@@ -3,22 +3,24 @@ Design check of spec/msg/PartialValidation.tla (model of both stages and of comp
 of Validator.tla) by TLC over messages x announced keys x completing chains; the enumerated rows are run on the real
 PartiallyValidateMessage -> inferJustificationVoteValue -> FullyValidateMessage and on ValidateMessage (fresh and shared warm
 caches); TLC evaluates the C13 clauses on every recorded row (spec/msg/PartialValidationTable.tla)."""
-import os, json, random, threading
+import os, json, random, threading, time
 import vlib, msgcommon as mc
 from vlib import Inconclusive
 
 LEVEL = "model_checking"
 NSLICES_QUICK = 32
+NSLICES_THOROUGH = int(os.environ.get("VERIF_MSG_SLICES", "4"))   # 1 = the whole space in one run
 FIELDS = mc.FIELDS + ["ak", "cc", "pj"]
 
 
 def design(ck, out):
     thorough = ck.tier == "thorough"
-    sl = ck.seed % NSLICES_QUICK
+    ns = NSLICES_THOROUGH if thorough else NSLICES_QUICK
+    sl = ck.seed % ns
     jobs = []
     if thorough:
-        jobs.append(lambda: vlib.tlc(mc.SPECDIR, "MCPartialValidation", "MCPartialValidationThorough.cfg", workdir=os.path.join(ck.dir, "tlc-design"),
-                                     workers=8, timeout=2400, heap="6g"))
+        jobs.append(lambda: vlib.tlc(mc.SPECDIR, "MCPartialValidation", "MCt.cfg", workdir=os.path.join(ck.dir, "tlc-design"), workers=8, timeout=2400, heap="6g",
+                                     extra_files={"MCt.cfg": mc.cfg_with(mc.SPECDIR, "MCPartialValidationThorough.cfg", NSlices=ns, Slice=sl)}))
     else:
         jobs.append(lambda: vlib.tlc(mc.SPECDIR, "MCPartialValidation", "MCq.cfg", workdir=os.path.join(ck.dir, "tlc-design"), workers=4, timeout=500,
                                      heap="4g", extra_files={"MCq.cfg": mc.cfg_with(mc.SPECDIR, "MCPartialValidation.cfg", Slice=sl)}))
@@ -33,7 +35,7 @@ def design(ck, out):
         if r.violated != "D_Design":
             raise Inconclusive("non-vacuity: %s was not refuted\n%s" % (m, r.out[-1500:]))
         ck.add_tlc("design:mutant(%s)" % m, r, exhaustive=False, note="named deviation of the two-stage model, must be refuted")
-    ck.add_tlc("design:two-stage(%s)" % ("whole space" if thorough else "slice %d/%d" % (sl, NSLICES_QUICK)), res[0],
+    ck.add_tlc("design:two-stage(%s)" % ("whole space" if ns == 1 else "slice %d/%d" % (sl, ns)), res[0],
                note="same acceptance, no foreign chain, no foreign justification, round trip on the model of both stages; rows emitted")
     ck.cov["exhaustive"] = True
     rows = [p for p in mc.parse_rows(res[0]) if len(p) == len(FIELDS)]
@@ -74,7 +76,7 @@ def compose(ck, rows, path, max_rows):
         g = dict(di=0, cr=0, cph="PREPARE") if rng.random() < 0.7 else mc.pick_progress(rng)
         g.pop("ep", None)
         f = [dict(d, ak=ak, cc=cc, pj=pj, fam=nf, **g) for ak in ("match", "other", "zero") for cc in ("orig", "other", "bot", "bad")
-             for pj in ("strip", "keep") for d in mc.neighbours(a)]
+             for pj in ("strip", "keep", "junk") for d in mc.neighbours(a)]
         hood += f
         nf += 1
     out = hood + out
@@ -105,11 +107,13 @@ def run(ck):
         t.join()
     if "err" in box:
         raise box["err"]
+    vlib.log("[%s] design + build done at %.0fs" % (ck.pid, time.time() - ck.t0))
     inp, outp = os.path.join(ck.dir, "c13-in.ndjson"), os.path.join(ck.dir, "c13-out.ndjson")
-    n, nf = compose(ck, dz["rows"], inp, 300000 if thorough else 16000)
+    n, nf = compose(ck, dz["rows"], inp, 120000 if thorough else 16000)
     rc, out = vlib.run_driver(box["bin"], "TestC13Table", env=dict(VERIF_IN=inp, VERIF_OUT=outp, VERIF_SEED=str(ck.seed)), timeout=1500)
     if rc != 0:
         raise Inconclusive("driver failed:\n" + out[-3000:])
+    vlib.log("[%s] driver done at %.0fs (%d rows)" % (ck.pid, time.time() - ck.t0, n))
     recs = vlib.read_ndjson(outp)
     if len(recs) != n:
         raise Inconclusive("driver wrote %d of %d rows" % (len(recs), n))
@@ -140,7 +144,7 @@ def run(ck):
 
 MANIFEST = dict(
     text=("TLC checks on a model of PartiallyValidateMessage, inferJustificationVoteValue and FullyValidateMessage (PartialValidation.tla), for every message of a reduced "
-          "C05 space x announced key {matching, zero, other chain's key} x completing chain {original, other, bottom, malformed} x carried justification {stripped, kept} "
+          "C05 space x announced key {matching, zero, other chain's key} x completing chain {original, other, bottom, malformed} x carried justification {stripped, kept, other chain} "
           "(2.0 M points, quick: a seeded 1/32 slice), that the two-stage path accepts iff one-shot validation (Validator.tla) of the completed message accepts and the chain's key is "
           "the announced key, that an admitted message satisfies every C05 rule, and that strip+complete is the identity on valid messages; two named deviations must be refuted. "
           "A seeded sample of whole twin families is executed on the real code (production strip and inference, fresh participants and long-lived participants whose cache is shared "
